@@ -5,7 +5,7 @@ CONSTANTS
   FlagHeights <- FH1
   Active <- ActMix
   Lists <- ListsMix
-  Acts <- AllActs
+  Acts <- NoTest
   MaxSteps = 4
   KeyMode = "full"
 INIT Init
